@@ -338,6 +338,12 @@ func readerFamily(seed uint64, tier string, args []string) {
 			runGroup([]spec{{ln, (li + pi) % 4, p, orders[(li+pi)%3], (li+pi)%5 == 0}})
 		}
 	}
+	// one Read with a buffer of exactly the payload's length (net/http hands out the tail of a fixed-length body together
+	// with EOF), a pause long enough for the upload request to complete, then more Reads: they must keep saying EOF
+	for i, ln := range []int{1, 2, 511, 513, 4096, 4097} {
+		runGroup([]spec{{ln, i % 4, []int{ln, -2, 8, 8}, "natural", false}})
+		runGroup([]spec{{ln, (i + 1) % 4, []int{ln + 5, -2, -3, 8}, "upload_first", false}})
+	}
 	// big payloads
 	bigs := []int{1 << 20, 1<<20 + 1}
 	if tier == "thorough" {
